@@ -144,7 +144,18 @@ Fixpoint amap_del {A} (m : list (N * A)) (k : N) : list (N * A) :=
   | (k', v') :: m' => if k =? k' then m' else (k', v') :: amap_del m' k
   end.
 
-Definition fs_put (s : fstore) (id : N) (i : nat) : fstore := FStore (fs_protected s) (amap_put (fs_map s) id i).
+(* Put: a different future still stored under the id is cancelled first (nothing could resolve
+   it once it is unreachable through the store) *)
+Definition fs_put (fuel : nat) (s : fstore) (h : heap) (id : N) (i : nat) : option (fstore * heap) :=
+  let h1 := match amap_get (fs_map s) id with
+            | Some j => if Nat.eqb j i then Some h
+                        else match cancel fuel h j VNil with Some (h', _) => Some h' | None => None end
+            | None => Some h
+            end in
+  match h1 with
+  | Some h' => Some (FStore (fs_protected s) (amap_put (fs_map s) id i), h')
+  | None => None
+  end.
 Definition fs_get (s : fstore) (id : N) : option nat := amap_get (fs_map s) id.
 Definition fs_delete (s : fstore) (id : N) : fstore := FStore (fs_protected s) (amap_del (fs_map s) id).
 Definition fs_all (s : fstore) : list nat := map snd (fs_map s).
